@@ -1,3 +1,4 @@
+import FimVerif.Generated.Serial
 /-!
 # C01 — serialization documents and the import entry points (document level)
 
@@ -7,7 +8,8 @@ This file models, *at the level of documents, not characters*,
   attribute dicts, edges in global insertion order; `Graph.edgesIter` is `G.edges(data=True)`),
 * `nx.generate_graphml` (`toGraphML`: attribute typing, key allocation `d<n>` by first
   occurrence of `(name, type, scope)`, key elements inserted at position 0),
-* `GraphML.networkx_to_neo4j` (`toNeo4j`: `label` / `labels` markup copied from the `Class` data),
+* `GraphML.networkx_to_neo4j` (`toNeo4j`: `label` / `labels` markup copied from the `Class` data; the prefix of the
+  node markup is `Gen.Serial.nodeLabelPrefix`, observed on the code by `gen/serial.py` on every run),
 * `nx.read_graphml` (`fromGraphML`: typing by the key table, `text is None ⇒ ""`),
 * `nx.node_link_data` / `node_link_graph` (`toJSON` / `fromJSON`),
 * the shared store `NetworkXGraphStorage` (`Store`: `extract_graph`, `add_graph`,
@@ -258,8 +260,8 @@ def markNode (ck : Option Nat) (n : GNode κ) : Except String (GNode κ) :=
   | .error er => .error er
   | .ok t =>
     match n.labels with
-    | some l => if l = "" then .ok { n with labels := some (":GraphNode:" ++ t) } else .ok n
-    | none => .ok { n with labels := some (":GraphNode:" ++ t) }
+    | some l => if l = "" then .ok { n with labels := some (Gen.Serial.nodeLabelPrefix ++ t) } else .ok n
+    | none => .ok { n with labels := some (Gen.Serial.nodeLabelPrefix ++ t) }
 
 /-- `GraphML.networkx_to_neo4j` : edges first, then nodes -/
 def toNeo4j (d : GDoc κ) : Except String (GDoc κ) :=
@@ -350,11 +352,12 @@ variable {κ : Type} [DecidableEq κ]
 
 def attrsObj (a : Attrs) : JObj κ := a.map fun p => (p.1, JV.v p.2)
 
-/-- `node_link_data(G)` : `{**attrs, "id": n}`, `{**attrs, "source": u, "target": v}` -/
+/-- `node_link_data(G)` : `{**attrs, "id": n}`, `{**attrs, "source": u, "target": v}`; the three reserved key names are
+    observed on the code (`Gen.Serial.jsonIdKey` / `jsonSourceKey` / `jsonTargetKey`) -/
 def toJSON (G : Graph κ) : JDoc κ :=
   { directed := false, multigraph := false,
-    nodes := G.nodes.map fun p => (attrsObj p.2).set "id" (.k p.1),
-    edges := G.edgesIter.map fun e => ((attrsObj e.attrs).set "source" (.k e.a)).set "target" (.k e.b) }
+    nodes := G.nodes.map fun p => (attrsObj p.2).set Gen.Serial.jsonIdKey (.k p.1),
+    edges := G.edgesIter.map fun e => ((attrsObj e.attrs).set Gen.Serial.jsonSourceKey (.k e.a)).set Gen.Serial.jsonTargetKey (.k e.b) }
 
 /-- the attribute part of an object: every entry except the reserved names -/
 def objAttrs (o : JObj κ) (reserved : List String) : Except String Attrs :=
@@ -371,21 +374,21 @@ def objKey (o : JObj κ) (name : String) : Except String κ :=
 
 /-- `node_link_graph(data)` for an undirected simple document whose nodes carry `id` -/
 def readJNode (o : JObj κ) : Except String (κ × Attrs) :=
-  match objKey o "id" with
+  match objKey o Gen.Serial.jsonIdKey with
   | .error e => .error e
   | .ok k =>
-    match objAttrs o ["id"] with
+    match objAttrs o [Gen.Serial.jsonIdKey] with
     | .error e => .error e
     | .ok a => .ok (k, a)
 
 def readJEdge (o : JObj κ) : Except String (Edge κ) :=
-  match objKey o "source" with
+  match objKey o Gen.Serial.jsonSourceKey with
   | .error e => .error e
   | .ok s =>
-    match objKey o "target" with
+    match objKey o Gen.Serial.jsonTargetKey with
     | .error e => .error e
     | .ok t =>
-      match objAttrs o ["source", "target"] with
+      match objAttrs o [Gen.Serial.jsonSourceKey, Gen.Serial.jsonTargetKey] with
       | .error e => .error e
       | .ok a => .ok ⟨s, t, a⟩
 
@@ -427,7 +430,7 @@ structure Store where
 
 namespace Store
 
-def empty : Store := ⟨[], [], 1⟩
+def empty : Store := ⟨[], [], Gen.Serial.initialStartId⟩
 
 def inGraph (g : Val) (n : SNode) : Bool := n.attrs.get? "GraphID" == some g
 
@@ -450,7 +453,8 @@ def delGraph (s : Store) (g : Val) : Store :=
   { s with nodes := s.nodes.filter (fun n => !(inGraph g n)),
            edges := s.edges.filter fun e => !(dead.contains e.a) && !(dead.contains e.b) }
 
-/-- `nx.convert_node_labels_to_integers(graph, first_label=start_id)` -/
+/-- `nx.convert_node_labels_to_integers(graph, first_label=start)`; which `start` the two stores pass
+    (`self.start_id` / the literal 1) is read from the code: `Gen.Serial.sharedFirstLabel`, `disjointFirstLabel` -/
 def relabelFrom {κ : Type} [DecidableEq κ] (G : Graph κ) (start : Nat) : Graph Nat :=
   G.relabel fun k => start + G.keys.idxOf k
 
@@ -463,7 +467,7 @@ def merge (s : Store) (T : Graph Nat) : Store :=
 /-- `add_graph` : the old graph of that id is deleted *before* the NodeID check -/
 def addGraph {κ : Type} [DecidableEq κ] (s : Store) (g : Val) (G : Graph κ) : Except String Unit × Store :=
   let s1 := s.delGraph g
-  let T := relabelFrom G s1.nextId
+  let T := relabelFrom G (Gen.Serial.sharedFirstLabel.eval s1.nextId)
   if T.nodes.all (fun p => ((p.2.get? "NodeID").map Val.truthy).getD false) then
     let T' : Graph Nat := { T with nodes := T.nodes.map fun p => (p.1, p.2.set "GraphID" g) }
     (.ok (), s1.merge T')
@@ -472,7 +476,7 @@ def addGraph {κ : Type} [DecidableEq κ] (s : Store) (g : Val) (G : Graph κ) :
 /-- `add_graph_direct` -/
 def addGraphDirect {κ : Type} [DecidableEq κ] (s : Store) (g : Val) (G : Graph κ) : Store :=
   let s1 := s.delGraph g
-  s1.merge (relabelFrom G s1.nextId)
+  s1.merge (relabelFrom G (Gen.Serial.sharedFirstLabel.eval s1.nextId))
 
 end Store
 
@@ -633,7 +637,7 @@ def addGraph {κ : Type} [DecidableEq κ] (s : DStore) (g : Val) (G : Graph κ) 
   | none => go
 where
   go : Except String Unit × DStore :=
-    let T := Store.relabelFrom G 1
+    let T := Store.relabelFrom G (Gen.Serial.disjointFirstLabel.eval 0)
     if T.nodes.all (fun p => ((p.2.get? "NodeID").map Val.truthy).getD false) then
       let T' : Graph Nat := { nodes := T.nodes.map fun p => (p.1, p.2.set "GraphID" g), edges := T.edges }
       (.ok (), { graphs := put s.graphs g { nodes := T'.nodes, edges := T'.edgesIter },
@@ -642,7 +646,7 @@ where
 
 /-- `add_graph_direct` : the relabelled graph object itself is stored -/
 def addGraphDirect {κ : Type} [DecidableEq κ] (s : DStore) (g : Val) (G : Graph κ) : DStore :=
-  let T := Store.relabelFrom G 1
+  let T := Store.relabelFrom G (Gen.Serial.disjointFirstLabel.eval 0)
   { graphs := put s.graphs g T, counters := put s.counters g (T.nodes.length + 1) }
 
 end DStore
